@@ -34,6 +34,7 @@ def run(ctx):
                [(mi, "minor", i - 7) for i, (ma, mi) in enumerate(table)]
     rule_tables(ctx, mod, table)
     rule_notes(ctx, mod, all_keys)
+    rule_asked_again(ctx, mod, all_keys)
     rule_signature(ctx, mod, table, all_keys)
     rule_rejections(ctx, mod, table)
     rule_relatives(ctx, mod, table)
@@ -93,6 +94,32 @@ def rule_notes(ctx, mod, all_keys):
         ok = p is not None and p.kind == "return" and p.value == want
         ctx.check(ok, R, "signature_accidentals[%s]" % key, fa.where(), "get_key_signature_accidentals(%r)" % key,
                   "signature accidentals of %r: %s, theory says %s" % (key, [(q.kind, q.value) for q in paths], want))
+
+
+def rule_asked_again(ctx, mod, all_keys):
+    """'For each key' holds whenever the key is asked for: the answer for a key, and for its relative, is the same after
+    an earlier answer has been edited by its receiver."""
+    R = "R-C04-1"
+    from ..engine.absint import RaiseEx
+    for fname, oracle in (("get_notes", lambda key, sig: nd.oracle_key_notes(key)[0]), ("get_key_signature_accidentals", lambda key, sig: nd.oracle_signature_accidentals(sig))):
+        fi = mod.func(fname)
+        for key, mode, sig in all_keys:
+            rel = [k for k, m_, s_ in all_keys if s_ == sig and k != key][0]
+
+            def go(it, key=key, rel=rel, fi=fi):
+                first = it.call_function(fi, [key], {})
+                if isinstance(first, list):
+                    first.append("X")
+                    first.reverse()
+                return it.call_function(fi, [key], {}), it.call_function(fi, [rel], {})
+            try:
+                ps = explore(lambda ch: Interp(ctx.repo, ch), go)
+            except CannotDecide as e:
+                raise AnalysisError("%s(%r) asked again: %s" % (fname, key, e))
+            ok = len(ps) == 1 and ps[0].kind == "return" and list(ps[0].value[0]) == oracle(key, sig) and list(ps[0].value[1]) == oracle(rel, sig)
+            ctx.check(ok, R, "%s.again[%s]" % (fname, key), fi.where(), "%s(%r), the answer edited, then %s(%r) and %s(%r)" % (fname, key, fname, key, fname, rel),
+                      "after the first answer was edited the library answers %s, theory says %s and %s" % (
+                          [(q.kind, short(repr(q.value), 90)) for q in ps], oracle(key, sig), oracle(rel, sig)))
 
 
 def rule_signature(ctx, mod, table, all_keys):
